@@ -185,6 +185,16 @@ input Input { b: Int }
 		fmt.Sprintf(ymlFollow, "c17d_f17b_follow") + "use_function_syntax_for_execution_context: true\n"})
 	ds = append(ds, directed{"c17d_opdir", "directive @auth(role: String) on QUERY | MUTATION | SUBSCRIPTION\ntype Query { a: Int }\ntype Mutation { b: Int }\ntype Subscription { c: Int }\n",
 		fmt.Sprintf(ymlFollow, "c17d_opdir")})
+	// repaired on the unchanged tree (fix: commits), kept as regression inputs
+	ds = append(ds, directed{"c17d_dirargs", `directive @d(string: Int, int: [String!], bool: Boolean = true, error: ID, any: Float, float64: Int, byte: Int, type: Int, range: Int) on FIELD_DEFINITION | ARGUMENT_DEFINITION | INPUT_FIELD_DEFINITION
+type Query { a(x: Int @d(string: 1, int: ["a"], type: 2)): [String] @d(string: 1, error: "e", any: 1.5)  b: Int @d(float64: 3, byte: 4, range: 5) }
+input In { f: String @d(string: 2, bool: false) }
+type Mutation { m(in: In): Boolean }
+`, ymlSingle})
+	ds = append(ds, directed{"c17d_lowertypes", "type struct { x: Int  y: Int }\ntype foo { x: Int }\ntype range { x: foo }\ntype Query { a: struct  b: foo  c: range }\n",
+		fmt.Sprintf(ymlFollow, "c17d_lowertypes") + "models:\n  struct:\n    fields:\n      x:\n        resolver: true\n  foo:\n    fields:\n      x:\n        resolver: true\n  range:\n    fields:\n      x:\n        resolver: true\n"})
+	ds = append(ds, directed{"c17d_recursive", "type Kind_Else { user: Kind_Else!  other: other_type! }\ntype other_type { back: Kind_Else!  self: [other_type!]! }\ninput In_put { a: Int  self: In_put }\ntype Query { a(i: In_put): Kind_Else }\n",
+		ymlSingle + "struct_fields_always_pointers: false\n"})
 	// F17d: omit_resolver_fields + a resolver field that comes from an interface (getter refers to the omitted field)
 	ds = append(ds, directed{"c17d_f17d", "interface Node { id: ID!  owner: String }\ntype Item implements Node { id: ID!  owner: String  n: Int }\ntype Query { item: Item  node: Node }\n",
 		ymlSingle + "omit_resolver_fields: true\nmodels:\n  Item:\n    fields:\n      owner:\n        resolver: true\n"})
